@@ -670,6 +670,15 @@ pub fn compiled_batch(seed: u64, n_hist: usize, n_fam: usize) -> Batch {
             ],
         },
     }));
+    // one record at three moments: an optional field in front, a field added behind it (another chunk), then the
+    // optional one removed — what a reader of the middle version meets depends on who wrote the data
+    {
+        let opt = || Field { name: "opt".into(), ty: Ty::Option(a(Ty::U32)), transient: None, opt_spelling: 0 };
+        let added = Step::Added { name: "b".into(), default: Val::str("dflt") };
+        specials.push(struct_decl("MemoV0", &Record { fields: vec![opt(), f("a", Ty::U8)], steps: vec![] }));
+        specials.push(struct_decl("MemoV1", &Record { fields: vec![opt(), f("a", Ty::U8), f("b", Ty::Str)], steps: vec![added.clone()] }));
+        specials.push(struct_decl("MemoV2", &Record { fields: vec![f("a", Ty::U8), f("b", Ty::Str)], steps: vec![added, Step::Removed { name: "opt".into() }] }));
+    }
     // constructors whose transient fields share a name (or a position) and a type, with different defaults
     {
         let tr = |n: &str, d: i128| Field { name: n.into(), ty: Ty::U32, transient: Some(Val::Int(d)), opt_spelling: 0 };
